@@ -173,14 +173,21 @@ def run(ctx):
     d = e[3]["target_location"][3]["0"]
     ok = d[0] == "agg" and d[1].endswith("DefGateSequenceExpansion")
     if ok:
-        rng = d[3]["range"]
+        # read the Range's operands at its own construction site (the nested entry expression is depth-limited)
+        rngs = [s_ for b_, s_ in aggregates(fw) if s_["rv"]["a"]["path"].endswith("ops::Range")]
+        if len(rngs) == 1:
+            rops = dict(zip(rngs[0]["rv"]["a"]["fields"], rngs[0]["rv"]["ops"]))
+            rng = ("agg", "Range", "Range", {k_: fn_expr_operand(fw, v_) for k_, v_ in rops.items()})
+        else:
+            rng = d[3]["range"]
         st = rng[3]["start"][3]["0"] if rng[0] == "agg" and rng[3]["start"][0] == "agg" else ("x",)
         en = rng[3]["end"][3]["0"] if rng[0] == "agg" and rng[3]["end"][0] == "agg" else ("x",)
         st_ok = st[0] == "call" and st[1].endswith("::len") and is_output_vec(st[2][0]) and extw[0][0] not in dom.get(st[3], set()) and st[3] in dom.get(extw[0][0], set())
         while en[0] == "field" and en[2] == "0" and en[1][0] == "bin":
             en = en[1]
         ext_val = extw[0][2][1]
-        en_ok = en[0] == "bin" and en[1].startswith("Add") and ((en[2] == st and en[3][0] == "call" and en[3][1].endswith("::len") and same_value(en[3][2][0], ext_val)) or (en[3] == st and en[2][0] == "call" and en[2][1].endswith("::len") and same_value(en[2][2][0], ext_val)))
+        same_call = lambda a, b: a[0] == "call" and b[0] == "call" and a[1] == b[1] and a[3] == b[3]  # same call site (depth-limited arguments may differ)
+        en_ok = en[0] == "bin" and en[1].startswith("Add") and ((same_call(en[2], st) and en[3][0] == "call" and en[3][1].endswith("::len") and same_value(en[3][2][0], ext_val)) or (same_call(en[3], st) and en[2][0] == "call" and en[2][1].endswith("::len") and same_value(en[2][2][0], ext_val)))
         check("K5|rewritten-range-start", st_ok, {}, "the Rewritten entry's range does not start at len(output) read before the expansion is appended", "the reported range of an expanded gate is shifted by the length of its own expansion")
         check("K5|rewritten-range-end", en_ok, {}, "the Rewritten entry's range does not end at start + len(the instructions appended)", "the reported range of an expanded gate does not cover exactly the instructions it was replaced by")
         sig = d[3]["source_signature"]
